@@ -8,6 +8,8 @@ from .. import paths
 from ..core import FUNC, call_attr, calls_in, dotted, norm, text, walk_local
 
 EXPLANATION = [
+    'C04.flush-handle: every call of a data queue\'s flush() in Host passes the connection handle of the link being removed (the key used on a *_links / connections table, or `.handle` of the link object taken from such a table), so the buffers of a removed link are really given back.',
+    'C04.shared-state: no class of the anchored modules keeps per-instance state in an object shared by all instances (an empty mutable container or synchronisation object as class-level default that is read through self and not rebound in __init__, or as a dataclass field default); process-wide registries are listed by name.',
     'C04.queue-geometry: each host data queue takes max_in_flight (and max_packet_size) from the Read Buffer Size fields of its own buffer pool, so the credit limit is the count the controller advertised for that pool (same rule as C05.queue-geometry).',
     'C04.over-report: on every path of on_packets_completed the amount subtracted from the global in-flight counter equals (as a linear form over entry values) the amount by which the connection\'s own counter dropped; reports for unknown handles change nothing.',
     'C04.credit-guard: in DataPacketQueue._check_queue every hand-over to the '
@@ -31,6 +33,7 @@ EXPLANATION = [
 ASSUMPTIONS = ['asyncio callbacks run to completion (no pre-emption between statements without await)']
 
 Q = 'bumble.host.DataPacketQueue'
+HOSTQ = 'bumble.host.Host'
 PIPE = 'bumble.utils.FlowControlAsyncPipe'
 
 
@@ -253,6 +256,52 @@ def fifo(ctx):
 
 
 # ---------------------------------------------------------------------------
+def flush_handle(ctx, rule='C04.flush-handle'):
+    """DataPacketQueue.flush(h) discards what is queued / in flight for connection handle h.  Every caller passes the
+    handle of the link it is tearing down: the key it looked the link up with, or `<link>.handle` of the link object it
+    popped -- never another identifier that happens to be at hand (a BIG handle, a CIG id)."""
+    R, p = ctx.r, ctx.p
+    host = p.cls(HOSTQ)
+    if host is None:
+        R.bad(rule, HOSTQ, 'anchor missing')
+        return
+    n = 0
+    for name, m in sorted(host.methods.items()):
+        for c in calls_in(m, include_lambda=True):
+            if not (isinstance(c.func, ast.Attribute) and c.func.attr == 'flush' and 'queue' in (dotted(c.func.value) or '') and c.args):
+                continue
+            n += 1
+            arg = c.args[0]
+            ok = False
+            why = ''
+            # link tables: attributes of self whose name ends in _links or is `connections`
+            def is_link_table(e):
+                d = dotted(e) or ''
+                return d.startswith('self.') and (d.endswith('_links') or d.endswith('connections'))
+            lookups = []   # (table expr, key expr, bound name)
+            for n_ in ast.walk(m):
+                tgt = val = None
+                if isinstance(n_, ast.Assign) and len(n_.targets) == 1:
+                    tgt, val = n_.targets[0], n_.value
+                elif isinstance(n_, ast.NamedExpr):
+                    tgt, val = n_.target, n_.value
+                if isinstance(val, ast.Call) and isinstance(val.func, ast.Attribute) and val.func.attr in ('pop', 'get') and is_link_table(val.func.value) and val.args:
+                    lookups.append((val.func.value, val.args[0], dotted(tgt) if tgt is not None else None))
+                if isinstance(n_, ast.Call) and isinstance(n_.func, ast.Attribute) and n_.func.attr in ('pop', 'get') and is_link_table(n_.func.value) and n_.args:
+                    lookups.append((n_.func.value, n_.args[0], None))
+                if isinstance(n_, ast.Subscript) and is_link_table(n_.value):
+                    lookups.append((n_.value, n_.slice, None))
+            if isinstance(arg, ast.Attribute) and arg.attr == 'handle' and any(b == dotted(arg.value) for _, _, b in lookups if b):
+                ok, why = True, f'handle of the link object `{dotted(arg.value)}` taken from a link table'
+            elif any(norm(k) == norm(arg) for _, k, _ in lookups):
+                ok, why = True, f'`{norm(arg)}` is the key the link was looked up with'
+            elif isinstance(arg, ast.Name) and arg.id in [a.arg for a in m.args.args] and name in ('on_disconnection',):
+                ok, why = True, 'the handle parameter of the teardown entry point'
+            R.check(ok, rule, f'{HOSTQ}.{name} | {norm(c)}', why or 'handle of the link being torn down',
+                    f'`{norm(c)}`: `{norm(arg)}` is not the connection handle of the link being removed (neither the key used on a link table nor `<link>.handle`): the flush is a no-op on an unknown handle, the link\'s buffers stay counted as in flight and other links starve', p.loc(c))
+    R.check(n >= 4, rule, f'{HOSTQ} | flush call sites', f'{n} call sites', f'only {n} flush call sites found')
+
+
 def drain(ctx, rule='C04.drain'):
     R, p = ctx.r, ctx.p
     qc = p.cls(Q)
@@ -515,7 +564,14 @@ def queue_geometry(ctx):
     c05.queue_geometry(ctx, rule='C04.queue-geometry')
 
 
+def shared_state_rule(ctx):
+    from ..shared_state import shared_state
+    shared_state(ctx, 'C04.shared-state', ['bumble.host', 'bumble.utils'])
+
+
 RULES = [
+    ('C04.flush-handle', flush_handle),
+    ('C04.shared-state', shared_state_rule),
     ('C04.queue-geometry', queue_geometry),
     ('C04.over-report', over_report),
     ('C04.credit-guard', credit_guard),
